@@ -1,0 +1,40 @@
+//go:build verif
+
+package stackless
+
+// C22, stackless writer (comment-only; checked by /verif/gocv). The compressed bytes of one operation sit in the
+// writer's own scratch buffer (w.xw.bb, taken from a pool shared by all writers). do hands exactly that live buffer to
+// the destination and gives it back to the pool only afterwards: bytes that went back to the pool before they were
+// written can be overwritten by a concurrent compression. A rejected operation (high load) or a failed one writes
+// nothing.
+
+//@ func writer.do results err
+//@   property C22
+//@   mode skeleton
+//@   ghost ran bool = false
+//@   ghost pooled bool = false
+//@   ghost written int = 0
+//@   on call stacklessWriterFunc -> ok:
+//@     effect ran = ok
+//@   on call xWriter.Reset:
+//@     effect pooled = true
+//@   on call io.Writer.Write(_, p) -> n, e:
+//@     nohavoc
+//@     requires[writes-the-live-scratch-buffer] w.xw.bb != nil && sameSlice(p, w.xw.bb.B)
+//@     requires[buffer-not-yet-back-in-the-pool] !pooled
+//@     requires[only-after-the-operation-ran] ran
+//@     effect written = written + 1
+//@   end
+//@   ensures[high-load-is-reported] !ran ==> err == errHighLoad && written == 0
+//@   ensures[buffer-returned-after-a-completed-operation] ran && old(w.err) == nil && err == nil ==> pooled
+
+//@ func xWriter.Reset
+//@   property C22
+//@   mode skeleton
+//@   ghost put int = 0
+//@   on call bytebufferpool.Pool.Put:
+//@     nohavoc
+//@     effect put = put + 1
+//@   end
+//@   ensures[forgets-the-buffer] w.bb == nil
+//@   ensures[returned-once-iff-held] put == (old(w.bb) != nil ? 1 : 0)
